@@ -99,5 +99,11 @@ CHECKS = {
         "text": "The printer spec writes out the naming tables (legacy CSI ~ codes with and without modifiers, CSI/SS3 letters, C0 and ESC-prefixed keys, kitty key codes incl. F13-F35 and modifier masks, all 256 SGR mouse button codes, DEC modes and statuses) and encodes CPR, size pairs, DECRPM, DA1, OSC 4/10/11 colours in #rrggbb and rgb:h/h/h with 1-4 digits and both terminators, XTGETTCAP, DECRPSS, kitty graphics responses, bracketed paste, SGR in ';' and ':' forms with several colours and mid-sequence resets, UTF-8 scalars at every length boundary, ambiguous ESC-prefixed keys followed by text that keeps a longer candidate alive, all ordered pairs of family representatives with and without text between them, and triples ending in ambiguous keys (about 4 400 vectors). Each is decoded whole, byte-wise and in 3-byte reads; TLC requires the projected events to equal the encoded ones.",
         "note": "Bounded generation from the printer's value sets (coordinates {1,2,9,10,99,100,255,256,65535}); naming follows the library's documented table where terminals differ.",
     },
+    "C11": {
+        "level": "translation_validation",
+        "technique": "raw bytes of the real kitty handler parsed by the TLA+ VT parser and executed on a TLA+ kitty-graphics terminal machine (KittyTerm) with closed-form base64; abstract handler x terminal model checked by TLC",
+        "text": "TLC checks the abstract handler (transmit-if-absent cache, position-derived placement ids, erase by id pair, eviction on error) against the terminal store over all histories of 5 draw/erase/error events on 2 images and 3 positions incl. the origin. Real histories (image pool: 1x1, empty, cropped/strided/transposed views, payloads of one, exactly one, exactly two and three 4096-byte chunks; positions incl. (0,0) and the 65535 corners; error responses with and without placement id) are judged command by command: chunk sizes and continuation flags, f/s/v/i keys, decoded payload = the image's RGBA pixels in row-major order, no retransmission while the terminal holds the image, every put refers to a held image, and the placements the terminal holds equal those drawn and not erased.",
+        "note": "Known finding: the two bottom-right corner positions share a placement id (pigeonhole on 32-bit ids).",
+    },
 }
 
